@@ -221,3 +221,116 @@ def part_closed(ctx: fw.Ctx) -> None:
                              diag=f'map cycle_of (pcl_trace {cq.cnat(fuel)} {env} {M.c_cfg(h)} {cq.cZ(t0)} (pinit {cq.cZ(t0)}) {M.c_script(script)})'))
     ctx.differential('closed', HEADER, cases, shard=120)
     ctx.cov['traces_validated_against_impl'] += len(cases)
+
+
+# --------------------------------------------------------------------------------------
+# D:supersession — the cause changes while the handler sleeps off its delay/backoff
+# --------------------------------------------------------------------------------------
+
+def part_supersession(ctx: fw.Ctx) -> None:
+    """Histories of processing cycles of ONE handler id in which one cause supersedes another before the handling is
+    finished: resume -> update (the on-resume handler mixed into the update of an object this process has not fully
+    handled yet: after a restart), update -> delete and create -> update (one id registered for both causes).  The
+    record is re-purposed (State.with_purpose(reason, handlers=...)) — with events arriving before the delay is over and
+    restarts (new loop-clock origin) in between.  Monitor: the property text on the call log and virtual time; tie:
+    the persisted driver with PRepurpose labels, stored record after every step."""
+    K.load()
+    r = ctx.rng
+    n = ctx.scale(90, 2500)
+    env = M.c_env('T', M.DEFAULT_BACKOFF)
+    R = K.causes.Reason
+    cases: list[fw.Case] = []
+    corpus = [   # the demo of the seeded change C11_4: TemporaryError(delay=4 s) on resume, the spec is edited 1 s later
+        ('resume-update', {'errors': None, 'retries': None, 'timeout': None, 'backoff': None}, [(('temp', 4000), 0), (('ok',), 0)], 1, 1000),
+        ('update-delete', {'errors': None, 'retries': None, 'timeout': None, 'backoff': 2000}, [(('arb',), 250), (('ok',), 0)], 1, 500),
+    ]
+    for i in range(n):
+        if M.too_many_hangs(ctx):
+            break
+        if i < len(corpus):
+            scenario, h, script, switch_at, early = corpus[i]
+        else:
+            scenario = r.choice(['resume-update', 'update-delete', 'create-update'])
+            h = {'errors': r.choice([None, None, 'T']), 'retries': r.choice([None, None, 3, 4]), 'timeout': r.choice([None, None, 3000]),
+                 'backoff': r.choice([None, 250, 750])}
+            script = [(r.choice([('temp', r.choice([250, 500, 1000, 1500, 4000])), ('arb',), ('temp', None)]), r.choice(M.DURS))
+                      for _ in range(r.choice([1, 2, 3]))] + M.gen_script(r, 3)
+            switch_at = r.choice([1, 1, 2, 3])
+            early = None
+        fn = M.Scripted(script, i)
+        reg = K.registries.OperatorRegistry()
+        common = dict(selector=K.references.Selector(K.references.EVERYTHING), old=None, new=None, field_needs_change=None,
+                      deleted=None, requires_finalizer=None, **M.RESOURCE_KW, **M.handler_kwargs(h, fn.fn))
+        if scenario == 'resume-update':
+            reg._changing.append(K.handlers.ChangingHandler(id='chg', reason=None, initial=True, **common))
+            phases = [(R.RESUME, True), (R.UPDATE, True)]
+        else:
+            first, second = (R.UPDATE, R.DELETE) if scenario == 'update-delete' else (R.CREATE, R.UPDATE)
+            reg._changing.append(K.handlers.ChangingHandler(id='chg', reason=first, initial=None, **common))
+            reg._changing.append(K.handlers.ChangingHandler(id='chg', reason=second, initial=None, **common))
+            phases = [(first, False), (second, False)]
+        settings = M.settings_with(M.DEFAULT_BACKOFF)
+        storage = settings.persistence.progress_storage
+        raw = {'apiVersion': 'kopf.dev/v1', 'kind': 'Kex', 'metadata': {'name': 'n', 'namespace': 'ns', 'uid': 'u'}, 'spec': {'x': 1}}
+        t0 = r.choice([1000, 50000])
+        wall, origin = t0, r.choice([0, 250])
+        labels: list[str] = []
+        schedule: list[dict] = []
+        closed = hung = False
+        ncalls = 0
+        repurposed = 0
+        slept_through = 0
+        for step in range(len(script) * 3 + 10):
+            reason, initial = phases[1] if step >= switch_at else phases[0]
+            if r.random() < 0.25 or (scenario == 'resume-update' and step == 0):
+                origin = wall - r.choice([0, 125, 1000, 30000])       # a (re)started operator process
+                labels.append('(PRestart, %s)' % M.c_prec(M.rec_fields(storage.fetch(key='chg', body=K.bodies.Body(raw)))))
+                schedule.append({'restart': True})
+            before = storage.fetch(key='chg', body=K.bodies.Body(raw))
+            if before is not None and before.get('purpose') not in (None, reason.value):
+                labels.append('(PRepurpose, %s)' % M.c_prec(M.rec_fields(before)))
+                repurposed += 1
+                sleeping = before.get('delayed') is not None and M.rec_fields(before)['delayed'] > wall
+                slept_through += 1 if sleeping else 0
+                ctx.count('supersession', f"{scenario}: record {'sleeping' if sleeping else 'due'} when the cause changes")
+            try:
+                delays, raw, end = M.one_cycle(reg, settings, raw, wall, origin, reason=reason, initial=initial)
+            except M.CycleHang as e:
+                ctx.fail('processing cycle did not finish (busy loop)', {'driver': 'supersession', 'scenario': scenario, 'handler': h,
+                                                                          'script': script}, str(e), sig='not-finished')
+                hung = True
+                break
+            rec = storage.fetch(key='chg', body=K.bodies.Body(raw))
+            called = len(fn.calls) > ncalls
+            tc, te = (fn.calls[-1][0], fn.calls[-1][2]) if called else (wall, wall)
+            a = M.script_at(script)(ncalls) if called else ('ok',)
+            ncalls = len(fn.calls)
+            labels.append(f'(PCycle {cq.cZ(wall)} {cq.cZ(tc)} {cq.cZ(te)} {cq.cZ(te)} {M.c_raised(a)}, {M.c_prec(M.rec_fields(rec))})')
+            schedule.append({'cycle_at': wall, 'cause': reason.value, 'entered': called, 'delays': delays})
+            if not delays:
+                closed = rec is None
+                break
+            nxt = end + max(0, min(delays))
+            if step + 1 == switch_at and nxt - end >= 250:
+                # the change that brings the new cause arrives while the handler still sleeps
+                nxt = end + (early if early is not None and early < nxt - end else M.Q * r.randrange(0, (nxt - end) // M.Q))
+            elif r.random() < 0.3 and nxt - end >= 250:
+                nxt = end + M.Q * r.randrange(0, (nxt - end) // M.Q)
+            wall = max(nxt, end)
+        if hung:
+            continue
+        calls = [tuple(c) for c in fn.calls]
+        case = {'driver': 'supersession', 'scenario': scenario, 'handler': h, 'script': script, 't0': t0, 'schedule': schedule}
+        ctx.count('driver', 'supersession')
+        ctx.count('supersession_repurposings', str(min(repurposed, 3)))
+        if repurposed and M.nontrivial(script):
+            ctx.nontriv(['supersession', scenario, h, script, schedule])
+        if i == 0:
+            ctx.sample({**case, 'entries': calls})
+        # the property, judged from the call log and virtual time: no attempt starts sooner than the requested delay /
+        # backoff after the previous failed attempt of the same handler in the same handling cycle; count; timeout; ...
+        M.check_series(ctx, case, h, M.script_at(script), calls, 0, M.DEFAULT_BACKOFF, complete=closed)
+        term = f'prun_matches {env} {M.c_cfg(h)} {cq.cZ(t0)} {cq.clist(labels)} {M.c_obs(calls)} {cq.cbool(closed)}'
+        cases.append(fw.Case(term, {**case, 'entries': calls, 'closed': closed}))
+    ctx.differential('supersession', HEADER, cases, shard=120)
+    ctx.cov['traces_validated_against_impl'] += len(cases)
